@@ -133,6 +133,11 @@ TFilter == IsEv("Filter") /\ Filter(Ev.ids) /\ Consume
                    \cup Flag("C13_FilterCurv", Ev.allCurv))
 \* the filter is an internal step: a run that does not log it is judged on the resulting memory alone
 TNoFilter == pc = "Filter" /\ ~IsEv("Filter") /\ Filter(mem) /\ Silent /\ Note({})
+TFilter0 == IsEv("Filter") /\ Filter0(Ev.ids) /\ Consume
+           /\ Note(Flag("C13_FilterKeepsNewest", Ev.ids # <<>> /\ Last(Ev.ids) = Last(mem))
+                   \cup Flag("C13_FilterSubseq", IsSubSeq(Ev.ids, mem))
+                   \cup Flag("C13_FilterCurv", Ev.allCurv))
+TNoFilter0 == pc = "Filter0" /\ ~IsEv("Filter") /\ Filter0(mem) /\ Silent /\ Note({})
 TMemUpdate == IsEv("MemUpd") /\ MemUpdate(Ev.ids # Ev.before, Ev.ids) /\ Consume
               /\ Note(MemClauses(Ev))
 TCallback == IsEv("Callback") /\ ~Ev.exc /\ Callback(StateRec("cb", ObsOf(Ev, Ev.frozen)), Ev.ret) /\ Consume
@@ -155,7 +160,7 @@ TCrashLS == /\ IsEv("LSEnd") /\ Ev.ret = "exc" /\ fault = "none"
             /\ UNCHANGED vars /\ Consume /\ Note({})
 
 Main == \/ TCrash \/ TCrashLS \/ TStart \/ TRestart \/ TRaise \/ TRaiseLS \/ TEvalF0 \/ TCallStop \/ TLateCallStop \/ TSkipStop \/ TEarly
-        \/ TNoEarly \/ TStencil \/ TEvalG0 \/ TScaler \/ TNoScaler \/ TUpd0 \/ TNoUpd0
+        \/ TNoEarly \/ TStencil \/ TEvalG0 \/ TScaler \/ TNoScaler \/ TUpd0 \/ TNoUpd0 \/ TFilter0 \/ TNoFilter0
         \/ TMem0First \/ TMem0Restart \/ TGuardEnter \/ TGuardExit \/ TCauchy \/ TSubspace \/ TLSBegin \/ TTrialF \/ TTrialG
         \/ TLSNone \/ TLSStep \/ TAccFEval \/ TAccFHit \/ TAccFSkip \/ TAccGEval \/ TAccGHit
         \/ TAccGSkip \/ TUpd \/ TStopTarget \/ TStopFtol \/ TNoStop \/ TFilter \/ TNoFilter \/ TMemUpdate
